@@ -8,6 +8,7 @@ import (
 	"fmt"
 	"net/http"
 	"net/http/httptest"
+	"regexp"
 	"strings"
 	"sync"
 	"time"
@@ -465,6 +466,58 @@ func c10Judge(lines []c10Line, rw *httptest.ResponseRecorder, calls []recCall, c
 
 var c10TimeFields = []string{"timestamp", "time", "ts"}
 
+var c10ESTimeRe = regexp.MustCompile(`^[0-9]{4}-[0-9]{2}-[0-9]{2} [0-9]{2}:[0-9]{2}:[0-9]{2}(\.[0-9]{1,9})?$`)
+
+// c10NearMiss renders t in a supported format and damages it (trailing or leading text, wrong separator, zone on the ES form, no zone on
+// the RFC form). The result is returned only when it is in none of the documented formats: the ES form
+// "YYYY-MM-DD hh:mm:ss[.1-9 digits]" (judged by a pattern of my own) and RFC 3339 with or without fraction (judged by the standard library).
+func c10NearMiss(r *h.Rng, t time.Time) (string, bool) {
+	es := t.UTC().Format("2006-01-02 15:04:05.000")
+	esNoFrac := t.UTC().Format("2006-01-02 15:04:05")
+	rfc := t.UTC().Format("2006-01-02T15:04:05.000Z07:00")
+	var s string
+	switch r.Intn(14) {
+	case 0:
+		s = es + h.Pick(r, []string{"Z", "+03:00", "-07:00", "xyz", " ", " UTC", "0Z"})
+	case 1:
+		s = esNoFrac + h.Pick(r, []string{"Z", "+03:00", ".", " ", "x", ",123"})
+	case 2:
+		s = " " + es
+	case 3:
+		s = strings.Replace(es, ".", ",", 1)
+	case 4:
+		s = es[:10] + "  " + es[11:] // two blanks between date and time
+	case 5:
+		s = strings.Replace(es, " ", "T", 1) // RFC shape without a zone
+	case 6:
+		s = strings.Replace(es, "-", "/", 2)
+	case 7:
+		s = strings.TrimSuffix(rfc, "Z") + h.Pick(r, []string{"", "z", " Z", "+0300", "+03", "UTC"})
+	case 8:
+		s = rfc + h.Pick(r, []string{" ", "Z", "x", "+03:00"})
+	case 9:
+		s = strings.Replace(rfc, "T", " ", 1)
+	case 10:
+		s = es[:len(es)-4] + ".12a"
+	case 11:
+		s = es[2:] // two-digit year
+	case 12:
+		s = strings.Replace(es, ":", ".", 2)
+	default:
+		s = es + "\t"
+	}
+	if c10ESTimeRe.MatchString(s) {
+		return "", false
+	}
+	if _, err := time.Parse(time.RFC3339Nano, s); err == nil {
+		return "", false
+	}
+	if _, err := time.Parse(time.RFC3339, s); err == nil {
+		return "", false
+	}
+	return s, true
+}
+
 func c10TimeRule(w *h.W, r *h.Rng, mk func(bulk.StorageClient) *bulk.Ingestor, drift, fdrift time.Duration) {
 	rec := &recClient{}
 	ing := mk(rec)
@@ -485,6 +538,7 @@ func c10TimeRule(w *h.W, r *h.Rng, mk func(bulk.StorageClient) *bulk.Ingestor, d
 			field, text string
 			parsed      time.Time
 			ok          bool
+			optional    bool // more fraction digits than nanoseconds: may be read as its value or skipped as unparsable
 		}
 		// offsets relative to the request time
 		offClass := h.Pick(tr, []string{"now", "past-in", "past-at", "past-at+1ms", "past-out", "future-in", "future-at", "future-at+1ms", "future-out"})
@@ -510,13 +564,20 @@ func c10TimeRule(w *h.W, r *h.Rng, mk func(bulk.StorageClient) *bulk.Ingestor, d
 			off = fdrift + time.Duration(tr.Range(2, 100000))*time.Millisecond
 		}
 		docTime := reqTime.Add(off)
-		format := h.Pick(tr, []string{"es", "rfc3339nano", "rfc3339", "es-nofrac", "rfc3339-offset"})
+		format := h.Pick(tr, []string{"es", "rfc3339nano", "rfc3339", "es-nofrac", "rfc3339-offset", "near-miss", "es-longfrac"})
 		render := func(t time.Time) string {
 			switch format {
 			case "es":
 				return t.Format("2006-01-02 15:04:05.000")
 			case "es-nofrac":
 				return t.Truncate(time.Second).Format("2006-01-02 15:04:05")
+			case "es-longfrac":
+				// more fraction digits than nanoseconds have: milliseconds, zeros down to the nanosecond, then 1-6 arbitrary digits below it
+				extra := make([]byte, tr.Range(1, 6))
+				for i := range extra {
+					extra[i] = byte('0' + tr.Intn(10))
+				}
+				return t.Format("2006-01-02 15:04:05.000") + "000000" + string(extra)
 			case "rfc3339nano":
 				return t.Format(time.RFC3339Nano)
 			case "rfc3339-offset":
@@ -534,12 +595,25 @@ func c10TimeRule(w *h.W, r *h.Rng, mk func(bulk.StorageClient) *bulk.Ingestor, d
 		primary := h.Pick(tr, c10TimeFields)
 		for _, f := range c10TimeFields {
 			switch {
+			case f == primary && format == "near-miss":
+				// a value one edit away from a supported format: it matches none of them, so it must not decide the ID
+				if nm, ok := c10NearMiss(tr, docTime); ok {
+					fields = append(fields, tf{field: f, text: nm})
+				} else {
+					fields = append(fields, tf{field: f, text: "not a time"})
+				}
 			case f == primary:
-				fields = append(fields, tf{field: f, text: render(docTime), parsed: docTime, ok: true})
+				fields = append(fields, tf{field: f, text: render(docTime), parsed: docTime, ok: true, optional: format == "es-longfrac"})
 			case tr.Chance(1, 3):
 				// a field of higher or lower priority: unparsable, or parsable with another time
 				if tr.Bool() {
-					fields = append(fields, tf{field: f, text: h.Pick(tr, []string{"not a time", "2023-13-45 99:99:99", "", "1700000000", "yesterday"})})
+					txt := h.Pick(tr, []string{"not a time", "2023-13-45 99:99:99", "", "1700000000", "yesterday"})
+					if format == "near-miss" {
+						if nm, ok := c10NearMiss(tr, reqTime.Add(-time.Duration(tr.Range(1, 3000))*time.Second)); ok {
+							txt = nm
+						}
+					}
+					fields = append(fields, tf{field: f, text: txt})
 				} else {
 					other := reqTime.Add(-time.Duration(tr.Range(1, 3000)) * time.Second).Truncate(time.Millisecond)
 					fields = append(fields, tf{field: f, text: other.Format("2006-01-02 15:04:05.000"), parsed: other, ok: true})
@@ -547,21 +621,22 @@ func c10TimeRule(w *h.W, r *h.Rng, mk func(bulk.StorageClient) *bulk.Ingestor, d
 			}
 		}
 		// rule: first field in the order timestamp, time, ts whose value parses
-		expect := reqTime
-		decided := "request-time"
-		for _, f := range fields {
-			if f.ok {
-				d := reqTime.Sub(f.parsed)
-				if d > drift || (d < 0 && -d > fdrift) {
-					expect = reqTime
-					decided = "request-time(drift)"
-				} else {
-					expect = f.parsed
-					decided = "doc:" + f.field
+		decide := func(skipOptional bool) (time.Time, string) {
+			for _, f := range fields {
+				if f.ok && !(skipOptional && f.optional) {
+					d := reqTime.Sub(f.parsed)
+					if d > drift || (d < 0 && -d > fdrift) {
+						return reqTime, "request-time(drift)"
+					}
+					return f.parsed, "doc:" + f.field
 				}
-				break
 			}
+			return reqTime, "request-time"
 		}
+		expect, decided := decide(false)
+		// a fraction longer than nanoseconds is in no documented format and the statement does not say whether it "parses":
+		// both readings are accepted (the value itself, or the field skipped as unparsable), any other time is a violation
+		expectAlt, _ := decide(true)
 		var forced [][2]string
 		for _, j := range tr.Perm(len(fields)) {
 			forced = append(forced, [2]string{fields[j].field, gen.JSONQuoteString(tr, fields[j].text)})
@@ -597,7 +672,7 @@ func c10TimeRule(w *h.W, r *h.Rng, mk func(bulk.StorageClient) *bulk.Ingestor, d
 			metas, derr := sdb.DecodeMetasBlock(calls[0].metas)
 			if derr != nil || len(metas) == 0 {
 				bad = "bad-payload: metas do not decode"
-			} else if got, want := uint64(metas[0].ID.MID), uint64(expect.UnixMilli()); got != want {
+			} else if got, want := uint64(metas[0].ID.MID), uint64(expect.UnixMilli()); got != want && got != uint64(expectAlt.UnixMilli()) {
 				bad = fmt.Sprintf("wrong-time: ID timestamp %d (%s), rule says %d (%s, %s)", got, time.UnixMilli(int64(got)).UTC().Format(time.RFC3339Nano), want, expect.Format(time.RFC3339Nano), decided)
 			}
 		}
